@@ -253,6 +253,10 @@ def setup(desc, ctx, res, binary):
     rng = random.Random(desc['seed'])
     ref = gen_ref(rng, k, desc['kind'], desc.get('big', False))
     samples = gen_samples(rng, ref, k, desc['kind'], rcmode)
+    if desc.get('iupac_ref'):
+        # (C05 only) a few reference bases replaced by ambiguity codes after the samples were derived
+        r2 = random.Random(desc['seed'] ^ 0x1c0de)
+        ref = [''.join(r2.choice('RYSWKMBDHV') if (ch in 'ACGTacgt' and r2.random() < 0.03) else ch for ch in c) for c in ref]
     names = ['c%d' % i for i in range(len(ref))]
     with open(ctx.path('ref.fa'), 'w') as f:
         for i, c in enumerate(ref):
